@@ -119,7 +119,12 @@ def run(ctx):
             if os.path.exists(rec):
                 for line in open(rec):
                     parts = line.split()
-                    got.append((os.path.normpath(fw.unhex(parts[0])), [fw.unhex(x) for x in parts[1:]][len(fixed) - 1:]))
+                    argv = [fw.unhex(x) for x in parts[1:]]
+                    if argv[:len(fixed) - 1] != fixed[1:]:
+                        # "after the fixed arguments": they come first, unchanged, in every invocation
+                        got.append((b"<fixed arguments changed>", argv[:len(fixed) + 1]))
+                        continue
+                    got.append((os.path.normpath(fw.unhex(parts[0])), argv[len(fixed) - 1:]))
                 os.remove(rec)
             m = fw.run_lines(fw.FUVM, ["execm %d %d %s %s" % (int(execdir), budget, ",".join(map(str, failing)) if failing else "~",
                                                              ",".join(entries) if entries else "~")], shards=1)[0].split(" ")
@@ -142,6 +147,7 @@ def run(ctx):
         root_directory(ctx, forest)
         no_empty_batch(ctx, forest)
         script_on_long_path(ctx, forest)
+        cannot_start(ctx, forest)
         ctx.sample({"example_command": "find ROOT -sorted -type f -execdir fuv record fixed {} + -name Q -quit", "stack_limit": 262144})
         for args, rl, got, exp, rc, exp_rc in bad[:2]:
             first = next(((i, a, b) for i, (a, b) in enumerate(zip(got + [None], exp + [None])) if a != b), None)
@@ -219,6 +225,26 @@ def root_directory(ctx, forest):
             ctx.violation("find %s -execdir CMD {} +: invocations %r (exit %d); expected %r" % (b" ".join(args).decode(), got, p.returncode, want),
                           {"property": "C08", "kind": "root-directory", "find_args": [a.decode() for a in args], "exit": p.returncode,
                            "invocations": [[c.decode(), [x.decode() for x in a]] for c, a in got]})
+
+
+def cannot_start(ctx, forest):
+    """the exit status is non-zero also when an invocation cannot be started at all (no such command; a file that is not executable)"""
+    d = os.path.join(forest.dir, b"cs")
+    os.makedirs(os.path.join(d, b"t"))
+    for n in (b"a", b"b"):
+        open(os.path.join(d, b"t", n), "wb").close()
+    open(os.path.join(d, b"notexec"), "wb").close()
+    for flag in ("-exec", "-execdir"):
+        for cmd in ("/nonexistent/cmd", os.path.join(d, b"notexec").decode()):
+            args = ["t", "-type", "f", flag, cmd, "{}", "+", "-print0"]
+            p = subprocess.run([fw.FIND] + args, stdout=subprocess.PIPE, stderr=subprocess.PIPE, cwd=d, env=xc.ENV, timeout=60)
+            ctx.count(("cannot-start", flag, cmd), True, "cannot-start")
+            # the action itself is true (the entries are still printed), the run fails
+            if p.returncode == 0 or sorted(p.stdout.split(b"\0")[:-1]) != [b"t/a", b"t/b"] or not p.stderr:
+                ctx.violation("find t -type f %s %s {} + -print0: exit %d, printed %r, diagnostic %r; expected a non-zero exit status, both entries and a diagnostic"
+                              % (flag, cmd, p.returncode, p.stdout, p.stderr[:100]),
+                              {"property": "C08", "kind": "cannot-start", "action": flag, "command": cmd, "exit": p.returncode,
+                               "stdout": p.stdout.decode("utf-8", "replace"), "stderr": p.stderr.decode("utf-8", "replace")[:300]})
 
 
 def script_on_long_path(ctx, forest):
